@@ -12,6 +12,7 @@ import (
 )
 
 func TestMain(m *testing.M) {
+	flag.DurationVar(&debugStall, "c01.stall", 0, "harness self-test: heartbeats of a target with a receive timeout pause once for this long after its script is through")
 	flag.Parse()
 	os.Exit(m.Run())
 }
